@@ -152,6 +152,14 @@ Recovered ==
   /\ viol' = viol
   /\ UNCHANGED <<scen, ffBuf, topInv, runlog, prev, runinfo>>
 
+\* MakeCheck under a real test deadline: Check may stop generating test cases early only when the deadline is near, i.e. (engine.go:findBug) when less
+\* time is left than five average test cases take.  The harness measured the time left when Check returned and what the generated cases cost;
+\* the margin (8 instead of 5 average cases, plus half a second) absorbs what the two clocks do not share.
+Timing ==
+  /\ Is("timing") /\ Adv /\ EUnch
+  /\ viol' = viol \cup If(mon.early /\ Ev.hasdeadline /\ Ev.invs > 0 /\ Ev.remain_ms > 8 * (Ev.total_ms \div Ev.invs) + 500, "early_exit_too_early")
+  /\ UNCHANGED <<scen, ffBuf, topInv, runlog, prev, runinfo>>
+
 \* a context obtained while the property function is still running must be live
 Ctx ==
   /\ Is("ctx") /\ Adv /\ EUnch
@@ -167,7 +175,7 @@ InvEnd ==
 \* events the engine specification does not talk about (custom-function brackets etc.)
 Handled == {"scen.end", "ctx", "scen.begin", "run.begin", "h.failfiles", "h.ff.load", "h.phase", "h.once.begin", "inv.begin", "draw", "call", "inv.end",
             "h.once.end", "h.shrink.begin", "h.accept", "h.shrink.end", "h.docheck.ret", "h.save", "tb.logf", "tb.errorf", "tb.failnow",
-            "run.end", "fs", "recovered"}
+            "run.end", "fs", "recovered", "timing"}
 Other ==
   /\ l <= Len(Trace) /\ Trace[l].ev \notin Handled
   /\ Adv /\ EUnch /\ viol' = viol /\ UNCHANGED <<scen, ffBuf, topInv, runlog, prev, runinfo>>
@@ -301,7 +309,7 @@ FS ==
   /\ EUnch /\ viol' = viol \cup V_FS(Ev.files)
   /\ UNCHANGED <<scen, ffBuf, topInv, runlog, prev, runinfo>>
 
-Next == ScenEnd \/ Ctx \/ ScenBegin \/ RunBegin \/ FFList \/ FFLoad \/ Phase \/ OnceBegin \/ InvBegin \/ Draw \/ Call \/ Recovered \/ InvEnd \/ Other
+Next == ScenEnd \/ Ctx \/ ScenBegin \/ RunBegin \/ FFList \/ FFLoad \/ Phase \/ OnceBegin \/ InvBegin \/ Draw \/ Call \/ Recovered \/ Timing \/ InvEnd \/ Other
         \/ OnceEnd \/ ShrinkBegin \/ Accept \/ ShrinkEnd \/ DoCheckRet \/ Save \/ TBLog \/ TBErrorf \/ TBFailNow \/ RunEnd \/ FS
 
 Spec == Init /\ [][Next]_vars
